@@ -230,7 +230,7 @@ contract(CMD + "CapabilitiesResponse._parse_capabilities",
          modifies=["self._capabilities", "self._additional_capabilities"],
          raises={"builtins.IndexError": {}},
          ensures={"has_count": "len(payload) >= 2"},
-         loops={"0": {"modifies": ["self._capabilities"],
+         loops={"0": {"match": "range(0, count)", "modifies": ["self._capabilities"],
                       "havoc": {"self._capabilities": "symdict:CAP_KEYS", "caps": "memoryview"}}})
 
 contract(CMD + "CapabilitiesResponse.__init__",
@@ -244,7 +244,7 @@ contract(CMD + "PropertiesResponse._parse",
          modifies=["self._properties"],
          raises={"builtins.IndexError": {}},
          ensures={"has_count": "len(payload) >= 2"},
-         loops={"0": {"modifies": ["self._properties"],
+         loops={"0": {"match": "range(0, count)", "modifies": ["self._properties"],
                       "havoc": {"self._properties": "symdict:PROP_KEYS:enum:" + CMD + "PropertyId", "props": "memoryview"}}})
 
 contract(CMD + "PropertiesResponse.__init__",
